@@ -194,6 +194,18 @@ func genScenarioC03(t *Tape, thorough bool) *Scenario {
 		fillFault(t.S("fault"), h, stopCancel, cs.N(npk+1), &p)
 		c := cleanAttempt(cs, t.S("policy"))
 		c.FreshStreamer = true
+		if cs.Chance(1, 3) {
+			// no crash: the same Streamer is re-pointed to one of the end labels it has
+			// delivered (an exact resume point by this property) and streams again; the
+			// first call ended at an arbitrary point or with a refused transaction
+			c.FreshStreamer, c.RewindTo = false, true
+			if cs.Chance(1, 2) {
+				exp, _ := h.Model(sc.Start)
+				p = AttemptPlan{}
+				genPolicy(t.S("policy"), &p)
+				fillFault(t.S("fault"), h, stopHandlerErr, cs.N(len(exp)+1), &p)
+			}
+		}
 		sc.Attempts = []AttemptPlan{p, c}
 		return sc
 	}
